@@ -31,6 +31,9 @@ macro_rules! lx_harness {
         #[kani::stub(Lexer::emit_error, Lexer::sh_emit_error)]
         #[kani::stub(Lexer::emit_error_info, Lexer::sh_emit_error_info)]
         #[kani::stub(Lexer::push_mode, Lexer::sh_push_mode)]
+        #[kani::stub(parse_sas_hex_string, stub_hex_string)]
+        #[kani::stub(unicode_ident::is_xid_start, det_xid_start)]
+        #[kani::stub(unicode_ident::is_xid_continue, det_xid_continue)]
         $(#[$m])*
         fn $name() $body
     };
@@ -573,7 +576,6 @@ macro_rules! lx_single_quoted_harness {
     ($k:literal, $b:literal, $uw:literal, $name:ident, $fixed:expr) => {
         lx_harness! {
             #[kani::unwind($uw)]
-            #[kani::stub(parse_sas_hex_string, stub_hex_string)]
             fn $name() {
                 let t = Txt::<$k, $b>::any(PFX, $fixed);
                 let mut lx = setup(&t, &[LexerMode::Default]);
@@ -690,8 +692,6 @@ macro_rules! lx_text_scanner_harness {
     ($k:literal, $b:literal, $uw:literal, $name:ident, $mode:expr, $call:ident, $stat_opts:expr) => {
         lx_harness! {
             #[kani::unwind($uw)]
-            #[kani::stub(unicode_ident::is_xid_start, det_xid_start)]
-            #[kani::stub(unicode_ident::is_xid_continue, det_xid_continue)]
             fn $name() {
                 let t = Txt::<$k, $b>::any(PFX, &[]);
                 kani::assume(t.n >= 1);
@@ -769,8 +769,6 @@ macro_rules! lx_arg_value_scan_harness {
     ($k:literal, $b:literal, $uw:literal, $name:ident) => {
         lx_harness! {
             #[kani::unwind($uw)]
-            #[kani::stub(unicode_ident::is_xid_start, det_xid_start)]
-            #[kani::stub(unicode_ident::is_xid_continue, det_xid_continue)]
             fn $name() {
                 let t = Txt::<$k, $b>::any(PFX, &[]);
                 kani::assume(t.n >= 1);
@@ -876,8 +874,6 @@ macro_rules! lx_str_call_scan_harness {
     ($k:literal, $b:literal, $uw:literal, $name:ident, $fixed:expr) => {
         lx_harness! {
             #[kani::unwind($uw)]
-            #[kani::stub(unicode_ident::is_xid_start, det_xid_start)]
-            #[kani::stub(unicode_ident::is_xid_continue, det_xid_continue)]
             fn $name() {
                 let t = Txt::<$k, $b>::any(PFX, $fixed);
                 kani::assume(t.n >= 1);
@@ -993,6 +989,14 @@ pub(crate) fn run_finalize(modes: &[LexerMode], last_is_str_start: bool) {
     // one earlier token: the look-behind of handle_unterminated_str_expr
     let eof_b = t.len as u32;
     shadow::preload_token(shadow::mk_token(TokenChannel::DEFAULT, if last_is_str_start { TokenType::StringExprStart } else { TokenType::MacroString }, eof_b - 1, t.pre_c - 1, 1, Payload::None));
+    // optionally a hidden token after it (e.g. the hidden ')' of %str): the start is then not the last token
+    let hidden_after: bool = kani::any();
+    if hidden_after {
+        shadow::preload_token(shadow::mk_token(TokenChannel::HIDDEN, TokenType::RPAREN, eof_b, t.pre_c, 1, Payload::None));
+    }
+    let last_is_str_start = last_is_str_start && !hidden_after;
+    let first_at = shadow::tok_n() - 1 - hidden_after as usize;
+    let first_tt = shadow::tok(first_at).token_type;
     let pre = snapshot(&lx, &t);
     lx.finalize_lexing();
     assert!(lx.cur_byte_offset().get() == eof_b && lx.mode_stack.is_empty(), "C10: finalize_lexing unwinds the whole mode stack");
@@ -1080,11 +1084,15 @@ pub(crate) fn run_finalize(modes: &[LexerMode], last_is_str_start: bool) {
         }
         j += 1;
     }
-    let first = shadow::tok(pre.tok_n - 1);
+    let first = shadow::tok(first_at);
     if retyped {
         assert!(first.token_type == TokenType::StringLiteral, "C10: an unterminated literal's start token becomes the literal");
     } else {
-        assert!(first.token_type == if last_is_str_start { TokenType::StringExprStart } else { TokenType::MacroString }, "C01: earlier tokens are not rewritten");
+        assert!(first.token_type == first_tt, "C10/C01: earlier tokens are not rewritten");
+    }
+    if hidden_after {
+        let h = shadow::tok(first_at + 1);
+        assert!(h.token_type == TokenType::RPAREN && h.channel == TokenChannel::HIDDEN, "C10: a hidden token after the string start is not rewritten");
     }
     std::mem::forget(lx);
 }
@@ -1903,8 +1911,6 @@ macro_rules! lx_macro_var_expr_harness {
     ($k:literal, $b:literal, $uw:literal, $name:ident, $fixed:expr) => {
 lx_harness! {
     #[kani::unwind($uw)]
-    #[kani::stub(unicode_ident::is_xid_start, det_xid_start)]
-    #[kani::stub(unicode_ident::is_xid_continue, det_xid_continue)]
     #[kani::stub(get_macro_resolve_ops_from_amps, stub_resolve_ops)]
     fn $name() {
         let t = Txt::<$k, $b>::any(PFX, $fixed);
@@ -2009,8 +2015,6 @@ lx_harness! {
 
 lx_harness! {
     #[kani::unwind(4)]
-    #[kani::stub(unicode_ident::is_xid_start, det_xid_start)]
-    #[kani::stub(unicode_ident::is_xid_continue, det_xid_continue)]
     fn lx_str_expr_text_eof() {
         let t = Txt::<1, 8>::any(PFX, &[]);
         let mut i = 0;
@@ -2045,3 +2049,94 @@ lx_harness! {
         std::mem::forget(lx);
     }
 }
+
+// =============================================================================================
+// Dispatcher arms: first character constant per instance, followers symbolic; heavy callees that the
+// arm cannot reach are cut off. Checks: common invariants (POS/LINE/TOK/errors), progress, and that
+// the text tokens a dispatcher hands out are never empty (C06).
+
+impl<'src> Lexer<'src> {
+    pub(crate) fn dead_kw(&mut self, _k: TokenTypeMacroCallOrStat, _b: bool) {
+        kani::assume(false);
+    }
+}
+
+pub(crate) fn check_new_tokens_nonempty<const K: usize, const B: usize>(t: &Txt<K, B>, pre: &Pre, pi: usize) {
+    let tn = shadow::tok_n();
+    let mut jj = 0;
+    while jj < NEW_TOK_MAX {
+        let j = pre.tok_n + jj;
+        if j < tn {
+            let (s, e) = tok_range(t, j, pi);
+            let tt = shadow::tok(j).token_type;
+            if matches!(tt, TokenType::MacroString | TokenType::WS | TokenType::StringExprText | TokenType::CStyleComment | TokenType::MacroComment | TokenType::Identifier) {
+                assert!(e > s, "C06: empty token of a type that must not be empty");
+            }
+        }
+        jj += 1;
+    }
+}
+
+macro_rules! lx_dispatch_arm_harness {
+    ($k:literal, $b:literal, $uw:literal, $name:ident, $modes:ident, $c:literal, |$t:ident| $asm:expr, |$lx:ident, $p:ident, $e:ident, $a:ident, $bb:ident| $call:expr) => {
+        lx_harness! {
+            #[kani::unwind($uw)]
+            #[kani::stub(Lexer::dispatch_macro_call_or_stat, Lexer::dead_kw)]
+            #[kani::stub(get_macro_resolve_ops_from_amps, stub_resolve_ops)]
+            fn $name() {
+                // the first character is a literal constant at the call site, so that CBMC folds the
+                // dispatcher's `match` to the one arm under test
+                let $t = Txt::<$k, $b>::any(PFX, &[$c]);
+                kani::assume($asm);
+                let t = $t;
+                let $e = any_eval_flags();
+                let $a = any_arg_flags();
+                let $p: u32 = kani::any();
+                kani::assume($p < u32::MAX - 8);
+                let $bb: bool = kani::any();
+                let _ = ($e, $a, $p, $bb);
+                let modes_arr = $modes!($p, $e, $a, $bb);
+                let mut $lx = setup(&t, &modes_arr);
+                shadow::preload_token(shadow::mk_token(TokenChannel::DEFAULT, TokenType::LPAREN, 1, 1, 0, Payload::None));
+                let pre = snapshot(&$lx, &t);
+                $call;
+                let lx = $lx;
+                let pi = check_common(&lx, &t, &pre);
+                check_progress::<$k, $b, 4>(&lx, &t, &pre, pi);
+                check_new_tokens_nonempty(&t, &pre, pi);
+                kani::cover!(pi > pre.pi || lx.mode_stack.len() < pre.stack_len);
+                kani::cover!(t.nl_upto(pi) > 0 || $c != '\n');
+                std::mem::forget(lx);
+            }
+        }
+    };
+}
+
+macro_rules! semi_text_modes { ($p:ident, $e:ident, $a:ident, $b:ident) => { [LexerMode::Default, LexerMode::ExpectSemiOrEOF, LexerMode::MacroSemiTerminatedTextExpr] }; }
+macro_rules! stat_opts_modes { ($p:ident, $e:ident, $a:ident, $b:ident) => { [LexerMode::Default, LexerMode::ExpectSemiOrEOF, LexerMode::MacroStatOptionsTextExpr] }; }
+macro_rules! arg_value_modes { ($p:ident, $e:ident, $a:ident, $b:ident) => { [LexerMode::Default, LexerMode::ExpectSymbol(TokenType::RPAREN, TokenChannel::DEFAULT), LexerMode::MacroCallValue { flags: $a, pnl: $p }] }; }
+macro_rules! str_call_modes { ($p:ident, $e:ident, $a:ident, $b:ident) => { [LexerMode::Default, LexerMode::ExpectSymbol(TokenType::RPAREN, TokenChannel::HIDDEN), LexerMode::MacroStrQuotedExpr { mask_macro: $b, pnl: $p }] }; }
+
+// %put / %let value text
+lx_dispatch_arm_harness!(3, 16, 6, lx_semi_text_arm_nl, semi_text_modes, '\n', |t| true, |lx, p, e, a, b| lx.dispatch_macro_semi_term_text_expr('\n'));
+lx_dispatch_arm_harness!(3, 16, 6, lx_semi_text_arm_percent, semi_text_modes, '%', |t| !ch_at(&t, 1).map_or(false, ref_name_start), |lx, p, e, a, b| lx.dispatch_macro_semi_term_text_expr('%'));
+lx_dispatch_arm_harness!(3, 16, 6, lx_semi_text_arm_slash, semi_text_modes, '/', |t| ch_at(&t, 1) != Some('*'), |lx, p, e, a, b| lx.dispatch_macro_semi_term_text_expr('/'));
+lx_dispatch_arm_harness!(3, 16, 6, lx_semi_text_arm_semi, semi_text_modes, ';', |t| true, |lx, p, e, a, b| lx.dispatch_macro_semi_term_text_expr(';'));
+// statement options text
+lx_dispatch_arm_harness!(3, 16, 6, lx_stat_opts_arm_percent, stat_opts_modes, '%', |t| !ch_at(&t, 1).map_or(false, ref_name_start), |lx, p, e, a, b| lx.dispatch_macro_stat_opts_text_expr('%'));
+lx_dispatch_arm_harness!(3, 16, 6, lx_stat_opts_arm_assign, stat_opts_modes, '=', |t| true, |lx, p, e, a, b| lx.dispatch_macro_stat_opts_text_expr('='));
+// macro call argument value
+lx_dispatch_arm_harness!(3, 16, 6, lx_arg_value_arm_nl, arg_value_modes, '\n', |t| true, |lx, p, e, a, b| lx.dispatch_macro_call_arg_value('\n', a, p));
+lx_dispatch_arm_harness!(3, 16, 6, lx_arg_value_arm_percent, arg_value_modes, '%', |t| !ch_at(&t, 1).map_or(false, ref_name_start) && ch_at(&t, 1) != Some('*'), |lx, p, e, a, b| lx.dispatch_macro_call_arg_value('%', a, p));
+lx_dispatch_arm_harness!(3, 16, 6, lx_arg_value_arm_comma, arg_value_modes, ',', |t| true, |lx, p, e, a, b| lx.dispatch_macro_call_arg_value(',', a, p));
+lx_dispatch_arm_harness!(3, 16, 6, lx_arg_value_arm_rparen, arg_value_modes, ')', |t| true, |lx, p, e, a, b| lx.dispatch_macro_call_arg_value(')', a, p));
+// %str / %nrstr text
+lx_dispatch_arm_harness!(3, 16, 6, lx_str_call_arm_nl, str_call_modes, '\n', |t| true, |lx, p, e, a, b| lx.dispatch_macro_str_quoted_expr('\n', b, p));
+lx_dispatch_arm_harness!(3, 16, 6, lx_str_call_arm_slash, str_call_modes, '/', |t| ch_at(&t, 1) != Some('*'), |lx, p, e, a, b| lx.dispatch_macro_str_quoted_expr('/', b, p));
+lx_dispatch_arm_harness!(3, 16, 6, lx_str_call_arm_rparen, str_call_modes, ')', |t| true, |lx, p, e, a, b| lx.dispatch_macro_str_quoted_expr(')', b, p));
+// cheaper variants (one follower) for the quick tier
+lx_dispatch_arm_harness!(2, 12, 6, lx_semi_text_arm_nl_k2, semi_text_modes, '\n', |t| true, |lx, p, e, a, b| lx.dispatch_macro_semi_term_text_expr('\n'));
+lx_dispatch_arm_harness!(2, 12, 6, lx_semi_text_arm_percent_k2, semi_text_modes, '%', |t| !ch_at(&t, 1).map_or(false, ref_name_start), |lx, p, e, a, b| lx.dispatch_macro_semi_term_text_expr('%'));
+lx_dispatch_arm_harness!(2, 12, 6, lx_arg_value_arm_nl_k2, arg_value_modes, '\n', |t| true, |lx, p, e, a, b| lx.dispatch_macro_call_arg_value('\n', a, p));
+lx_dispatch_arm_harness!(2, 12, 6, lx_str_call_arm_nl_k2, str_call_modes, '\n', |t| true, |lx, p, e, a, b| lx.dispatch_macro_str_quoted_expr('\n', b, p));
+lx_dispatch_arm_harness!(2, 12, 6, lx_stat_opts_arm_percent_k2, stat_opts_modes, '%', |t| !ch_at(&t, 1).map_or(false, ref_name_start), |lx, p, e, a, b| lx.dispatch_macro_stat_opts_text_expr('%'));
